@@ -200,22 +200,25 @@ inductive ManipLookup where
   | panic (site : String)
   deriving Repr, Inhabited
 
+/-- a hook returns nothing or exactly one `error` -/
+def badHookResult (env : Env) (results : List TyId) : Bool :=
+  match results with
+  | [] => false
+  | [e] => !env.isErrorType e
+  | _ => true
+
 def lookupManipulatorFunc (env : Env) (sc : Scope) (name optName pos : String) : ManipLookup :=
   match lookupType env sc name with
   | .notFound => .error s!"function {name} not found"
   | .notFunc => .error s!"{name} isn't a function"
   | .func sig =>
-    let badResult := match sig.results with
-      | [] => false
-      | [e] => !env.isErrorType e
-      | _ => true
-    if badResult then .error s!"function {name} cannot use for {optName} func" else
+    if badHookResult env sig.results then .error s!"function {name} cannot use for {optName} func" else
     match sig.params with
     | d :: s :: rest =>
       .ok { name := sig.name, pkgPath := sig.pkgPath, exported := sig.exported, dstSide := d, srcSide := s,
             additionalArgs := rest, pos := pos,
             retError := (match sig.results with | [e] => env.isErrorType e | _ => false) }
-    | _ => .panic "lookupManipulatorFunc: makeslice: len out of range"
+    | _ => .error s!"function {name} cannot use for {optName} func"
 
 /-! ## notation lines -/
 
@@ -300,7 +303,7 @@ def literalEffect (opts : Options) (pos rest : String) (args : List String) : Ef
   | dst :: _ :: _ =>
     match matchLiteral rest with
     | some lit => .opts { opts with literals := opts.literals ++ [⟨dst, lit, pos⟩] }
-    | none => .panic "parseNotationInComments: reLiteral did not match (index out of range)"
+    | none => .error "needs <dst> <literal> args"
   | _ => .error "needs <dst> <literal> args"
 
 def hookEffect (env : Env) (sc : Scope) (pos optName : String) (args : List String)
